@@ -82,6 +82,10 @@ def kept_indices(s, rcond, cutoff):
     keep = []
     for i in range(k):
         if s[i] == 0.0:
+            if rc < 1e-15:
+                # an exactly singular matrix has COMPUTED singular values of the order of the rounding unit: whether a threshold
+                # below that keeps them is not decidable
+                return None
             continue
         thr = rc * s[0]
         if 0.5 * thr < s[i] < 2.0 * thr:
@@ -169,32 +173,44 @@ def check_reuse_case(case, out):
         S[i, i] = s[i]
     A = U @ S @ V.T
     b = np.array([1.0 + 0.25 * i * (-1) ** i for i in range(m)])
-    settings = [(None, None), (0.3, None), (1e-3, None), (None, 1), (0.3, 1)] + ([(None, k - 1)] if k >= 3 else [])
-    for first in settings:
-        svd = SVD(A)
-        for j, (rcond, cutoff) in enumerate([first] + settings):
-            keep = kept_indices(s, rcond, cutoff)
-            kwargs = {}
-            if rcond is not None:
-                kwargs["rcond"] = rcond
-            if cutoff is not None:
-                kwargs["sing_val_cutoff"] = cutoff
-            x = svd.lstsq(b, **kwargs)
-            out["evaluations"] += 1
-            if keep is None:
-                out["undecidable"] += 1
-                continue
-            Uk, Vk = U[:, keep], V[:, keep]
-            smin = min([s[i] for i in keep], default=1.0)
-            ref = Vk @ np.diag([1.0 / s[i] for i in keep]) @ Uk.T @ b if keep else np.zeros(n)
-            if x.shape != (n,) or np.linalg.norm(x - ref) > 1e-8 * (np.linalg.norm(ref) + np.linalg.norm(b) / smin + 1e-300) * (max(s[0], 1e-300) / smin):
-                if len(out["issues"]) < 20:
-                    out["issues"].append({"kind": "violation", "property": "C16", "finding": None, "config": {},
-                                          "what": f"SVD.lstsq on a re-used SVD object: call #{j} with rcond={rcond}, sing_val_cutoff={cutoff} (after a call with "
-                                                  f"{first}) returned {x.tolist()}, the solution restricted to the kept singular values is {ref.tolist()}",
-                                          "program": [f"svd = SVD(U diag({s}) V^T)  # {m}x{n} {pname}", f"svd.lstsq(b, {first}) ... svd.lstsq(b, rcond={rcond}, sing_val_cutoff={cutoff})"],
-                                          "case": {"kind": "reuse", "id": [m, n, pname]}})
-                return
+    # settings given per call (None = not given; 0 is a value like any other: keep every non-zero singular value)
+    settings = [(None, None), (0.3, None), (1e-3, None), (0.0, None), (0, None), (None, 1), (0.3, 1), (0.0, 1)] + ([(None, k - 1)] if k >= 3 else [])
+    # settings given at construction, which a call that gives none falls back on
+    ctors = [(None, None), (0.3, None), (1e-3, 1), (0.0, None)] + ([(0.3, k - 1)] if k >= 3 else [])
+    for ctor in ctors:
+        ckw = {}
+        if ctor[0] is not None:
+            ckw["rcond"] = ctor[0]
+        if ctor[1] is not None:
+            ckw["sing_val_cutoff"] = ctor[1]
+        for first in settings:
+            svd = SVD(A, **ckw)
+            for j, (rcond, cutoff) in enumerate([first] + settings):
+                eff_rcond = rcond if rcond is not None else ctor[0]
+                eff_cutoff = cutoff if cutoff is not None else ctor[1]
+                keep = kept_indices(s, eff_rcond, eff_cutoff)
+                kwargs = {}
+                if rcond is not None:
+                    kwargs["rcond"] = rcond
+                if cutoff is not None:
+                    kwargs["sing_val_cutoff"] = cutoff
+                x = svd.lstsq(b, **kwargs)
+                out["evaluations"] += 1
+                if keep is None:
+                    out["undecidable"] += 1
+                    continue
+                Uk, Vk = U[:, keep], V[:, keep]
+                smin = min([s[i] for i in keep], default=1.0)
+                ref = Vk @ np.diag([1.0 / s[i] for i in keep]) @ Uk.T @ b if keep else np.zeros(n)
+                if x.shape != (n,) or np.linalg.norm(x - ref) > 1e-8 * (np.linalg.norm(ref) + np.linalg.norm(b) / smin + 1e-300) * (max(s[0], 1e-300) / smin):
+                    if len(out["issues"]) < 20:
+                        out["issues"].append({"kind": "violation", "property": "C16", "finding": None, "config": {},
+                                              "what": f"SVD.lstsq on an SVD object built with {ckw}: call #{j} with rcond={rcond!r}, sing_val_cutoff={cutoff!r} (after a "
+                                                      f"call with {first}) returned {x.tolist()}, the solution restricted to the kept singular values is {ref.tolist()}",
+                                              "program": [f"svd = SVD(U diag({s}) V^T, **{ckw})  # {m}x{n} {pname}",
+                                                          f"svd.lstsq(b, {first}) ... svd.lstsq(b, rcond={rcond!r}, sing_val_cutoff={cutoff!r})"],
+                                              "case": {"kind": "reuse", "id": [m, n, pname]}})
+                    return
     out["distinct"].add(("reuse", m, n, pname))
 
 
@@ -234,8 +250,16 @@ def linear_cases(tier):
                 for tw in (None, (3.0, 0.25, 2.0, 0.5, 1.5)[:nt]):
                     for br in (False, True, 2):
                         yield {"fam": fam, "x0": x0, "kw": kw, "tw": tw, "tol": 1e-8, "limits": [(-50.0, 50.0)] * nk, "broyden": br, "nsm": 20}
-                    # the start point sits exactly on a limit of every knob (upper / lower), the solution is inside
                     ks = F["ksol"]
+                    # one knob is disabled and already holds its solution value: the remaining problem is consistent, the step must land
+                    if 2 <= nk <= nt:
+                        for j in range(nk):
+                            xj = list(x0)
+                            xj[j] = ks[j]
+                            for br in (False, True):
+                                yield {"fam": fam, "x0": xj, "kw": kw, "tw": tw, "tol": 1e-8, "limits": [(-50.0, 50.0)] * nk, "broyden": br, "nsm": 20,
+                                       "dv": (j,)}
+                    # the start point sits exactly on a limit of every knob (upper / lower), the solution is inside
                     if nk <= nt:
                         up = [max(k + 1.0, 2.0) for k in ks]
                         lo = [min(k - 1.0, -2.0) for k in ks]
@@ -279,7 +303,7 @@ def check_linear(spec, out):
                 what = "solve() returned outside the tolerances"
         except Exception as e:  # noqa
             what = f"solve(broyden={spec['broyden']}) failed on a consistent well-conditioned linear problem: {type(e).__name__}: {e}"
-    out["distinct"].add(("linear", spec["fam"], tuple(spec["x0"]), spec["kw"] is None, spec["tw"] is None, spec["broyden"]))
+    out["distinct"].add(("linear", spec["fam"], tuple(spec["x0"]), spec["kw"] is None, spec["tw"] is None, spec["broyden"], spec.get("dv", ())))
     if what and len(out["issues"]) < 20:
         out["issues"].append({"kind": "violation", "property": "C16", "finding": None, "what": what, "config": {},
                               "program": [f"problem: {O.spec_str(spec)}", "opt.step(1)", f"opt.solve(broyden={spec['broyden']})"],
@@ -336,6 +360,77 @@ def reconfig_cases():
                 for kw in (None, (2.0, 0.5, 4.0)[:nk]):
                     yield {"fam": fam, "x0": x0, "kw": kw, "tw": None, "tol": 1e-8, "nsm": 20, "reconf": what,
                            "limits": [(x - 0.05, x + 0.05) for x in x0] if what.startswith("limits") else [(-50.0, 50.0)] * nk}
+
+
+class Deadline:
+    """a call of the library that does not return within `seconds` is reported (TimeoutError) instead of stalling the run"""
+
+    def __init__(self, seconds):
+        self.seconds = seconds
+
+    def __enter__(self):
+        import signal
+
+        def on_alarm(signum, frame):
+            raise TimeoutError(f"the call did not return within {self.seconds} s")
+        self.old = signal.signal(signal.SIGALRM, on_alarm)
+        signal.alarm(self.seconds)
+
+    def __exit__(self, *a):
+        import signal
+        signal.alarm(0)
+        signal.signal(signal.SIGALRM, self.old)
+        return False
+
+
+def target_edit_cases():
+    for fam in ("lin2", "lin2skew", "lin3", "ident3", "lin1"):
+        F = O.FAMILIES[fam]
+        nk = F["nk"]
+        for x0 in ([0.1] * nk, [2.0 - 0.5 * i for i in range(nk)]):
+            for edit in ("value", "value+weight", "enable"):
+                for kw in (None, (2.0, 0.5, 4.0)[:nk]):
+                    for br in (False, True):
+                        if edit == "enable" and nk < 2:
+                            continue
+                        yield {"fam": fam, "x0": x0, "kw": kw, "tw": None, "tol": 1e-8, "nsm": 20, "edit": edit, "broyden": br,
+                               "limits": [(-50.0, 50.0)] * nk, "dv": (0,) if edit == "enable" else (), "dt": (0,) if edit == "enable" else ()}
+
+
+def check_target_edit(spec, out):
+    """a step; then the user edits the TARGETS (value, weight, or enables a target together with a knob) and leaves the knobs where
+    they are; the next Jacobian step of the same optimizer must land on the solution of the edited linear problem"""
+    out["evaluations"] += 1
+    p = O.Problem(spec)
+    what = None
+    try:
+        with Deadline(5):
+            p.opt.step(1, broyden=spec["broyden"])
+            if "value" in spec["edit"]:
+                for i, t in enumerate(p.opt.targets):
+                    t.value = p.tvals[i] + 0.5 * (i + 1)
+                    p.tvals[i] = t.value
+            if "weight" in spec["edit"]:
+                for i, t in enumerate(p.opt.targets):
+                    t.weight = (3.0, 0.25, 2.0)[i]
+                    p.tw[i] = t.weight
+            if spec["edit"] == "enable":
+                p.opt.enable(vary=[0], target=[0])
+            p.opt.step(1, broyden=False)
+        k = p.knob_values()
+        vals = p.f(k)
+        err = max(abs(v - t) for v, t in zip(vals, p.tvals))
+        if err > 1e-6:
+            what = (f"after the targets' {spec['edit']} were edited (knobs untouched), a Jacobian step of the same optimizer leaves the targets of a "
+                    f"linear problem off by {err:.3e} (knobs {k!r})")
+    except Exception as e:  # noqa
+        what = f"sequence raised {type(e).__name__}: {e}"
+    out["distinct"].add(("target-edit", spec["fam"], tuple(spec["x0"]), spec["edit"], spec["kw"] is None, spec["broyden"]))
+    if what and len(out["issues"]) < 20:
+        out["issues"].append({"kind": "violation", "property": "C16", "finding": None, "what": what, "config": {},
+                              "program": [f"problem: {O.spec_str(spec)}", f"opt.step(1, broyden={spec['broyden']})",
+                                          f"targets' {spec['edit']} edited by the user, knobs untouched", "opt.step(1)"],
+                              "case": {"kind": "target-edit", "spec": repr(spec)}})
 
 
 def check_reconfig(spec, out):
@@ -467,6 +562,16 @@ def view_cases():
                                    [0.25] * (nk - 1) + [lims[-1][1]]]                      # last knob on its upper limit
                             for pt in pts:
                                 yield {"fam": fam, "kw": kw, "tw": tw, "limits": lims, "rescale": rs, "scalar": scalar, "pt": pt}
+                            # disabled knobs / targets (every single one, first and last together): a disabled knob keeps its value
+                            # whatever x says (zero column), a disabled target contributes nothing (zero row)
+                            masks = [((i,), ()) for i in range(nk)] + [((), (i,)) for i in range(nt)] + [((0,), (nt - 1,))]
+                            if nk >= 3:
+                                masks.append(((0, nk - 1), ()))
+                            for dv, dt in masks:
+                                if len(dv) == nk or len(dt) == nt:
+                                    continue
+                                yield {"fam": fam, "kw": kw, "tw": tw, "limits": lims, "rescale": rs, "scalar": scalar, "pt": pts[0],
+                                       "dv": dv, "dt": dt}
 
 
 def check_view(c, out):
@@ -474,7 +579,8 @@ def check_view(c, out):
     out["evaluations"] += 1
     F = O.FAMILIES[c["fam"]]
     nk, nt = F["nk"], F["nt"]
-    spec = {"fam": c["fam"], "x0": [0.1] * nk, "kw": c["kw"], "tw": c["tw"], "limits": c["limits"], "steps": 1e-7}
+    dv, dt = c.get("dv", ()), c.get("dt", ())
+    spec = {"fam": c["fam"], "x0": [0.1] * nk, "kw": c["kw"], "tw": c["tw"], "limits": c["limits"], "steps": 1e-7, "dv": dv, "dt": dt}
     p = O.Problem(spec)
     view = p.opt.get_merit_function(return_scalar=c["scalar"], rescale_x=c["rescale"], check_limits=False)
     kpt = np.array(c["pt"], dtype=float)                        # knob values where the Jacobian is wanted
@@ -490,9 +596,17 @@ def check_view(c, out):
     else:
         xv = xnat
         dnat = np.ones(nk)
-    Jk = np.array(CLOSED[c["fam"]](list(kpt)), dtype=float)       # d f_i / d knob_j
+    keff = kpt.copy()
+    for j in dv:
+        keff[j] = 0.1                                           # a disabled knob stays where it is
+    Jk = np.array(CLOSED[c["fam"]](list(keff)), dtype=float)       # d f_i / d knob_j
     J = (tw[:, None] * Jk) * (kw * dnat)[None, :]
-    fvec = tw * (np.array(p.f(list(kpt))) - np.array(p.tvals))
+    fvec = tw * (np.array(p.f(list(keff))) - np.array(p.tvals))
+    for j in dv:
+        J[:, j] = 0.0
+    for i in dt:
+        J[i, :] = 0.0
+        fvec[i] = 0.0
     Jexp = 2 * fvec @ J if c["scalar"] else J
     what = None
     try:
@@ -515,12 +629,13 @@ def check_view(c, out):
             what = f"reported Jacobian {got.tolist()} differs from central differences of the same view {cd.tolist()}"
     except Exception as e:  # noqa
         what = f"{type(e).__name__}: {e}"
-    out["distinct"].add(("view", c["fam"], c["kw"] is None, c["tw"] is None, c["rescale"], c["scalar"]))
+    out["distinct"].add(("view", c["fam"], c["kw"] is None, c["tw"] is None, c["rescale"], c["scalar"], dv, dt))
     if what and len(out["issues"]) < 20:
         out["issues"].append({"kind": "violation", "property": "C16", "finding": None, "config": {}, "what": "merit-function view: " + what,
                               "program": [f"family={c['fam']} kw={c['kw']} tw={c['tw']} limits={c['limits']}",
                                           f"view = opt.get_merit_function(return_scalar={c['scalar']}, rescale_x={c['rescale']})",
-                                          f"view.get_jacobian(x) at knobs {c['pt']}"], "case": {"kind": "view", "c": repr(c)}})
+                                          f"view.get_jacobian(x) at knobs {c['pt']}; disabled knobs {list(dv)}, disabled targets {list(dt)}"],
+                              "case": {"kind": "view", "c": repr(c)}})
 
 
 # ---------------------------------------------------------------- driver
@@ -531,6 +646,8 @@ def new_out():
 def job(chunk):
     out = new_out()
     for kind, payload in chunk:
+        if len(out["issues"]) >= 5:
+            break       # the run is already a failure: no need to sit through every further case (some failures are time-outs)
         if kind == "lstsq":
             check_lstsq_case(payload, out)
         elif kind == "smallint":
@@ -547,6 +664,8 @@ def job(chunk):
             check_broyden_seq(payload, out)
         elif kind == "reconfig":
             check_reconfig(payload, out)
+        elif kind == "target-edit":
+            check_target_edit(payload, out)
     out["distinct"] = {repr(x) for x in out["distinct"]}
     return out
 
@@ -562,6 +681,7 @@ def all_items(tier):
     items += [("reuse", c) for c in reuse_cases()]
     items += [("broyden-seq", c) for c in broyden_seq_cases()]
     items += [("reconfig", c) for c in reconfig_cases()]
+    items += [("target-edit", c) for c in target_edit_cases()]
     return items
 
 
@@ -582,7 +702,7 @@ def run_job(job_):
     chunks = [[h] for h in heavy] + E.chunked(light, 60)
     r = E.pmap(job, chunks, job_.get("nproc", 1))
     r["distinct_n"] = len(r.pop("distinct", ()))
-    r["items"] = {k: sum(1 for it in items if it[0] == k) for k in ("lstsq", "smallint", "linear", "scalings", "view", "reuse", "broyden-seq", "reconfig")}
+    r["items"] = {k: sum(1 for it in items if it[0] == k) for k in ("lstsq", "smallint", "linear", "scalings", "view", "reuse", "broyden-seq", "reconfig", "target-edit")}
     return r
 
 
@@ -617,6 +737,8 @@ def replay(issue):
         check_broyden_seq(ast.literal_eval(case["spec"]), out)
     elif case["kind"] == "reconfig":
         check_reconfig(ast.literal_eval(case["spec"]), out)
+    elif case["kind"] == "target-edit":
+        check_target_edit(ast.literal_eval(case["spec"]), out)
     elif case["kind"] == "reuse":
         for c in reuse_cases():
             if [c[0], c[1], c[4]] == case["id"]:
